@@ -554,7 +554,7 @@ class Unit:
 
     def fn(self, path, block, name, spec=None, ret=None, loops=None, proofs=None, rules=(), key=None,
            props=None, rename=None, header_rules=(), expect=True, strip_pub=False, as_free=False,
-           block_index=0, prefix="", no_canary=False):
+           block_index=0, prefix="", no_canary=False, vpath=None):
         """Extract fn `name` from `block` (impl/trait header text, or None for file level) of `path`."""
         src = self.src(path)
         blk = None
@@ -605,7 +605,10 @@ class Unit:
             for seg, tag in splice(body, loops, proofs, key):
                 self.chunks.append((seg, dict(meta, kind=tag)))
             self.chunks.append(("\n\n", dict(meta)))
-        self.functions.append({"item": key, "file": path, "line": it.line,
+        if vpath is None:
+            m = re.match(r"(?:impl|trait)(?:<[^>]*>)?\s+(?:.*\bfor\s+)?([A-Za-z_][A-Za-z0-9_]*)", block or "")
+            vpath = ("%s::" % m.group(1) if m else "") + (rename or name)
+        self.functions.append({"item": key, "file": path, "line": it.line, "vpath": vpath,
                                "sha256": hashlib.sha256(raw.encode()).hexdigest(), "rules": apps, "kind": "fn",
                                "has_contract": bool(spec), "props": props or [], "no_canary": no_canary})
         if expect:
